@@ -178,7 +178,7 @@ shape!(o1_4_shape_n3_last_first, 0xFFFFE, 3, [2, 0, 1], 0b111);
 //@fn PacketReceiver::{handle_datagram, receive, advance_window, set_channel_base_id, try_unset_channel_base_id}, AssemblyWindow::{try_add, clear}
 //@bound W=4, base 2^20-2; history of 3 packets; schedule shape: arrivals [2,1] (the first packet never arrives: the window base stays before the wrap while a channel moves past it; then a late older packet), receive() after each
 shape!(o1_4_shape_n3_first_lost_last_then_late, 0xFFFFE, 3, [2, 1], 0b11);
-//@h props=C01,C02 tier=thorough timeout=1800 role=receiver-model args=--no-memory-safety-checks
+//@h props=C01,C02 tier=thorough timeout=1800 role=receiver-model args=--no-memory-safety-checks group=mem
 //@assume Kani pointer checks off in this functional obligation (the same code runs with them on in the C03 obligations)
 //@fn PacketReceiver::{handle_datagram, receive, advance_window, set_channel_base_id, try_unset_channel_base_id}, AssemblyWindow::{try_add, clear}
 //@bound W=4, base 2^20-2; history of 3 packets; schedule shape: arrivals [1,2,0], receive() only at the end
@@ -188,12 +188,12 @@ shape!(o1_4_shape_n3_first_last_batched, 0xFFFFE, 3, [1, 2, 0], 0b000);
 //@fn PacketReceiver::{handle_datagram, receive, advance_window, set_channel_base_id, try_unset_channel_base_id}, AssemblyWindow::{try_add, clear}
 //@bound W=4 completely used, base 2^20-3; history of 4 packets; schedule shape: arrivals [3,0,2] (the last slot of the window first, then the oldest, then a late older packet), receive() after each
 shape!(o1_4_shape_n4_last_slot_then_oldest_then_late, 0xFFFFD, 4, [3, 0, 2], 0b111);
-//@h props=C01,C02 tier=thorough timeout=1800 role=receiver-model args=--no-memory-safety-checks
+//@h props=C01,C02 tier=thorough timeout=1800 role=receiver-model args=--no-memory-safety-checks group=mem
 //@assume Kani pointer checks off in this functional obligation (the same code runs with them on in the C03 obligations)
 //@fn PacketReceiver::{handle_datagram, receive, advance_window, set_channel_base_id, try_unset_channel_base_id}, AssemblyWindow::{try_add, clear}
 //@bound W=4 completely used, base 0; history of 4 packets; schedule shape: arrivals [3,1,0,2], receive() after each
 shape!(o1_4_shape_n4_3102, 0, 4, [3, 1, 0, 2], 0b1111);
-//@h props=C01,C02 tier=thorough timeout=1800 role=receiver-model args=--no-memory-safety-checks
+//@h props=C01,C02 tier=thorough timeout=1800 role=receiver-model args=--no-memory-safety-checks group=mem
 //@assume Kani pointer checks off in this functional obligation (the same code runs with them on in the C03 obligations)
 //@fn PacketReceiver::{handle_datagram, receive, advance_window, set_channel_base_id, try_unset_channel_base_id}, AssemblyWindow::{try_add, clear}
 //@bound W=4 completely used, base 2^20-1; history of 4 packets; schedule shape: arrivals [2,3,0,1,2] (with a late duplicate), receive() after arrivals 2 and 4 and at the end
